@@ -57,7 +57,9 @@ func vtArbitraryState() *vtState {
 		a := vt.Choose("active", n+1)
 		if a < n {
 			s.active = s.ids[a]
-			activeMode = &traits.ElectricMode{Id: s.ids[a], Normal: s.normal[a], Title: "t"}
+			// the active mode holds a copy of the mode taken when it became active: its Normal flag may be stale
+			// (UpdateMode moves the normal flag without touching the active copy)
+			activeMode = &traits.ElectricMode{Id: s.ids[a], Normal: vt.Choose("active.normalFlagCopy", 2) == 1, Title: "t"}
 		}
 	}
 	s.m = &Model{
@@ -180,6 +182,7 @@ func VT_C19_Step() {
 		vtInvariants(m, everChanged, "change-active")
 		vt.Reach("change-active")
 	case 6: // ChangeToNormalMode (ClearActiveMode)
+		before := m.ActiveMode()
 		got, err := m.ChangeToNormalMode()
 		normalID := ""
 		for i := range s.ids {
@@ -194,6 +197,9 @@ func VT_C19_Step() {
 			everChanged = true
 			if err == nil {
 				vt.Assert(vt.And(got.Id == normalID, m.ActiveMode().Id == normalID), "clear-active-selects-the-normal-mode")
+				if before.Id != normalID {
+					vt.Assert(got.StartTime.AsTime().Equal(s.clk.now), "clear-switching-stamps-start-time-with-the-model-clock")
+				}
 			}
 		}
 		vtInvariants(m, everChanged, "clear-active")
